@@ -88,7 +88,10 @@ func newC18Vals() *c18Vals {
 				iss := v.issuers[ii]
 				v.ops = append(v.ops, c18Op{Name: fmt.Sprintf("insert(%c,s%d,ext%d)", 'A'+ii, si, ei),
 					Do: func(s crlstore.CRLStore) error {
-						return s.InsertRevokedCert(&crlreader.CRLEntry{Issuer: &iss, RevokedCertificate: rc})
+						// like the CRL reader, the caller hands over one issuer variable for all entries and only changes
+						// what it holds: a store must key on the name it is given, not on the identity of the variable
+						*c18IssuerVar = iss
+						return s.InsertRevokedCert(&crlreader.CRLEntry{Issuer: c18IssuerVar, RevokedCertificate: rc})
 					},
 					Ref: func(m *c18Model) { m.entries[c18Key(iss, rc.SerialNumber)] = rc }})
 			}
@@ -348,6 +351,9 @@ func diffField(a, b, c string) string {
 	}
 	return strings.Join(ded, ",")
 }
+
+// c18IssuerVar is the one issuer variable all inserts of the operation alphabet go through.
+var c18IssuerVar = new(pkix.RDNSequence)
 
 // c18Shapes: value-shape sweep, depth 1-2 (each shape written and read back on both backends).
 func c18Shapes(chk *fw.Check) int {
